@@ -10,13 +10,16 @@
 package main
 
 import (
+	"bufio"
 	"bytes"
 	"encoding/hex"
 	"encoding/json"
 	"flag"
 	"fmt"
 	"io"
+	"net"
 	"net/http"
+	"net/url"
 	"os"
 	"path/filepath"
 	"sort"
@@ -29,8 +32,33 @@ import (
 	"verifharness/proxykit"
 )
 
-const nKeys = 3
+const nKeys = 7
 const nonceFailKey = 2 // eth_getTransactionCount for this held address is answered with an RPC error
+
+// round 3: keys 3..5 make the nonce lookup fail in the other ways a backend can fail (HTTP 500 without a
+// body, dropped connection, a result that is not a number); for key 6 the lookup answers `null` (the
+// nonce stays nil, signing proceeds with nonce 0).  nonceFails(i) = the request ends with an error.
+func nonceFails(i int) bool { return i >= nonceFailKey && i <= 5 }
+
+const nonceNullKey = 6
+
+// a transaction whose `to` address carries this marker is signed normally, but the scripted backend
+// refuses its eth_sendRawTransaction in the way the digit after the marker selects (1 RPC error, 2 HTTP
+// 500 without a body, 3 dropped connection, 4 the body `null`, 5 RPC error with HTTP 500; any other
+// digit: accepted).  The `to` address is in clear in the RLP of the signed transaction.
+const rawRefuseMarker = "00000000000000000000000000000000dead000"
+
+func rawRefusal(hexOrJSON string) int {
+	i := strings.Index(strings.ToLower(hexOrJSON), rawRefuseMarker)
+	if i < 0 || i+len(rawRefuseMarker) >= len(hexOrJSON) {
+		return 0
+	}
+	d := int(hexOrJSON[i+len(rawRefuseMarker)] - '0')
+	if d >= 1 && d <= 5 {
+		return d
+	}
+	return 0
+}
 
 const header = `From Coq Require Import String List NArith ZArith Bool Uint63.
 From FFS Require Import Base.Bytes Base.Lit Rpc.Body Rpc.RunC16.
@@ -51,15 +79,55 @@ type result struct {
 }
 
 func script(keys []proxykit.Key) func(f *proxykit.Frame) proxykit.Reply {
-	nf := `"` + keys[nonceFailKey].Hex() + `"`
+	which := func(p json.RawMessage) int {
+		for i, k := range keys {
+			if strings.EqualFold(string(p), `"`+k.Hex()+`"`) {
+				return i
+			}
+		}
+		return -1
+	}
+	refusal := func(d int) proxykit.Reply {
+		switch d {
+		case 1:
+			return proxykit.Reply{Kind: proxykit.ReplyRPCError, Code: -32000, Message: "nonce too low"}
+		case 2:
+			return proxykit.Reply{Kind: proxykit.ReplyHTTPError, Status: 500}
+		case 3:
+			return proxykit.Reply{Kind: proxykit.ReplyDrop}
+		case 4:
+			return proxykit.Reply{Kind: proxykit.ReplyRawBody, Body: []byte("null")}
+		default:
+			return proxykit.Reply{Kind: proxykit.ReplyRPCError, Status: 500, Code: -32003, Message: "transaction rejected"}
+		}
+	}
 	return func(f *proxykit.Frame) proxykit.Reply {
 		switch f.Method {
 		case "eth_getTransactionCount":
-			if len(f.Params) > 0 && strings.EqualFold(string(f.Params[0]), nf) {
-				return proxykit.Reply{Kind: proxykit.ReplyRPCError, Code: -32005, Message: "nonce lookup refused"}
+			if len(f.Params) > 0 {
+				switch which(f.Params[0]) {
+				case nonceFailKey:
+					return proxykit.Reply{Kind: proxykit.ReplyRPCError, Code: -32005, Message: "nonce lookup refused"}
+				case 3:
+					return refusal(2)
+				case 4:
+					return refusal(3)
+				case 5:
+					return proxykit.Reply{Kind: proxykit.ReplyResult, Result: json.RawMessage(`"zz"`)}
+				case nonceNullKey:
+					return proxykit.Reply{Kind: proxykit.ReplyResult, Result: json.RawMessage(`null`)}
+				}
 			}
 			return proxykit.Reply{Kind: proxykit.ReplyResult, Result: json.RawMessage(`"0x5"`)}
 		case "eth_sendRawTransaction":
+			if len(f.Params) > 0 {
+				if string(f.Params[0]) == `"0xdead"` { // RunC16.raw_refused, for a client that sends it itself
+					return refusal(1)
+				}
+				if d := rawRefusal(string(f.Params[0])); d != 0 {
+					return refusal(d)
+				}
+			}
 			return proxykit.Reply{Kind: proxykit.ReplyResult, Result: json.RawMessage(`"0x` + strings.Repeat("ab", 32) + `"`)}
 		case "net_version":
 			return proxykit.Reply{Kind: proxykit.ReplyResult, Result: json.RawMessage(`"2022"`)}
@@ -104,6 +172,9 @@ func post(p *proxykit.Proxy, tc tcase) proxykit.Response {
 	if tc.mode == "" {
 		return p.Post(tc.body)
 	}
+	if strings.HasPrefix(tc.mode, "short-") {
+		return postShort(p, tc)
+	}
 	var rd io.Reader = bytes.NewReader(tc.body)
 	if tc.mode == "chunked" {
 		rd = struct{ io.Reader }{rd} // hides the length: the client uses Transfer-Encoding: chunked
@@ -116,6 +187,49 @@ func post(p *proxykit.Proxy, tc tcase) proxykit.Response {
 		req.Header.Set("Content-Type", "application/json")
 	}
 	res, err := altClient.Do(req)
+	if err != nil {
+		return proxykit.Response{Err: err}
+	}
+	defer res.Body.Close()
+	b, err := io.ReadAll(res.Body)
+	return proxykit.Response{Status: res.StatusCode, Body: b, Err: err}
+}
+
+// postShort makes the upload end early: the request announces more bytes than are sent (Content-Length
+// too large, or a chunked body without its terminating chunk) and the client then closes its sending
+// side only.  The handler's io.ReadAll fails with the bytes read so far; the reply can still be read.
+func postShort(p *proxykit.Proxy, tc tcase) proxykit.Response {
+	u, err := url.Parse(p.URL)
+	if err != nil {
+		return proxykit.Response{Err: err}
+	}
+	c, err := net.DialTimeout("tcp", u.Host, 10*time.Second)
+	if err != nil {
+		return proxykit.Response{Err: err}
+	}
+	defer c.Close()
+	_ = c.SetDeadline(time.Now().Add(30 * time.Second))
+	var req bytes.Buffer
+	req.WriteString("POST / HTTP/1.1\r\nHost: " + u.Host + "\r\nContent-Type: application/json\r\nConnection: close\r\n")
+	if tc.mode == "short-chunked" {
+		req.WriteString("Transfer-Encoding: chunked\r\n\r\n")
+		if len(tc.body) > 0 {
+			fmt.Fprintf(&req, "%x\r\n", len(tc.body))
+			req.Write(tc.body)
+			req.WriteString("\r\n")
+		}
+		// no terminating 0-length chunk
+	} else {
+		fmt.Fprintf(&req, "Content-Length: %d\r\n\r\n", len(tc.body)+tc.extra)
+		req.Write(tc.body)
+	}
+	if _, err := c.Write(req.Bytes()); err != nil {
+		return proxykit.Response{Err: err}
+	}
+	if tcp, ok := c.(*net.TCPConn); ok {
+		_ = tcp.CloseWrite()
+	}
+	res, err := http.ReadResponse(bufio.NewReader(c), nil)
 	if err != nil {
 		return proxykit.Response{Err: err}
 	}
@@ -194,7 +308,7 @@ func (rn *runner) start(tag string) (*proxykit.Proxy, error) {
 }
 
 // runSequence posts the bodies of one sequence to one process (restarting it if it dies).
-func (rn *runner) runSequence(worker, seq int, cases []tcase) ([]result, error) {
+func (rn *runner) runSequence(worker, seq int, cases []tcase, burst []tcase) ([]result, error) {
 	p, err := rn.start(fmt.Sprintf("s%d", seq))
 	if err != nil {
 		return nil, err
@@ -221,6 +335,51 @@ func (rn *runner) runSequence(worker, seq int, cases []tcase) ([]result, error) 
 		}
 		out = append(out, res)
 		if res.died || !res.probeOK {
+			p.Kill()
+			restarts++
+			p, err = rn.start(fmt.Sprintf("s%d_r%d", seq, restarts))
+			if err != nil {
+				return out, err
+			}
+		}
+	}
+	// concurrent section: the bodies of the burst are POSTed at the same time to the same process (each
+	// carries ids no other body has, so an answer that leaks from one request into another shows)
+	for round := 0; len(burst) > 0 && round < 1; round++ {
+		var descs []string
+		for _, tc := range burst {
+			descs = append(descs, textOf(tc.body))
+		}
+		writeCurrent(rn.out, worker, map[string]interface{}{"sequence": seq, "position": len(cases), "kind": "concurrent-burst", "bodies_posted_concurrently": descs, "body_dsl": cv.Compress(burst[0].body)})
+		br := make([]result, len(burst))
+		var wg sync.WaitGroup
+		for i, tc := range burst {
+			wg.Add(1)
+			go func(i int, tc tcase) {
+				defer wg.Done()
+				r := result{tc: tc, seq: seq, pos: len(cases) + round*len(burst) + i}
+				r.resp = post(p, tc)
+				r.obs, r.problems = observe(r.resp)
+				r.probeOK = true
+				br[i] = r
+			}(i, tc)
+		}
+		wg.Wait()
+		ok := p.Probe()
+		if !ok {
+			time.Sleep(50 * time.Millisecond)
+			ok = p.Probe()
+		}
+		br[0].probeOK = ok
+		if !p.Alive() {
+			br[0].died = true
+			br[0].exit, _ = p.ExitCode()
+			br[0].logTail = tail(p.Log(), 1500)
+		} else if !ok {
+			br[0].logTail = tail(p.Log(), 1500)
+		}
+		out = append(out, br...)
+		if br[0].died || !ok {
 			p.Kill()
 			restarts++
 			p, err = rn.start(fmt.Sprintf("s%d_r%d", seq, restarts))
@@ -307,6 +466,10 @@ func main() {
 	for i := 0; i < len(cases); i += seqLen {
 		seqs = append(seqs, cases[i:min(i+seqLen, len(cases))])
 	}
+	bursts := make([][]tcase, len(seqs))
+	for s := range seqs {
+		bursts[s] = g.burst(s, thorough)
+	}
 	workers := 12
 	results := make([][]result, len(seqs))
 	errs := make([]error, len(seqs))
@@ -317,7 +480,7 @@ func main() {
 		go func(w int) {
 			defer wg.Done()
 			for s := range next {
-				results[s], errs[s] = rn.runSequence(w, s, seqs[s])
+				results[s], errs[s] = rn.runSequence(w, s, seqs[s], bursts[s])
 			}
 		}(w)
 	}
@@ -359,6 +522,25 @@ func main() {
 			default:
 				st.Hit("len:~1MiB")
 			}
+			if strings.HasPrefix(res.tc.mode, "short-") {
+				// the upload ended early: the handler never had the whole body, the model (a function of the
+				// body) does not apply; judged here: alive, and a well-formed JSON-RPC reply (the code answers
+				// with its parse-error object; answering the bytes that did arrive would be acceptable too)
+				if res.died {
+					deaths++
+					fail(st, "C16/process-died", fmt.Sprintf("the ffsigner process died (exit status %d) after an upload that ended early", res.exit), res)
+				} else if !res.probeOK {
+					fail(st, "C16/not-serving", "the process no longer answers eth_accounts after an upload that ended early", res)
+				}
+				if len(res.problems) > 0 {
+					fail(st, "C16/reply-shape", "upload ended early ("+res.tc.mode+"): "+res.problems[0], res)
+				}
+				st.Evaluations++
+				continue
+			}
+			if strings.HasPrefix(res.tc.kind, "concurrent/") {
+				st.Hit("concurrent-section")
+			}
 			tree, ok := parseTree(res.tc.body)
 			verdict := "VSyntaxError"
 			if ok {
@@ -397,7 +579,7 @@ func main() {
 	if err := w.Flush(); err != nil {
 		panic(err)
 	}
-	st.Evaluations = w.Count()
+	st.Evaluations += w.Count()
 	st.Distinct = len(g.seen)
 	st.Extra["sequences"] = len(seqs)
 	st.Extra["sequence_length"] = seqLen
@@ -444,7 +626,7 @@ func doReplay(rn *runner, path string) {
 	} else {
 		body, _ = hex.DecodeString(c.BodyHex)
 	}
-	results, err := rn.runSequence(0, 0, []tcase{{body: body, kind: "replay/" + c.Kind}})
+	results, err := rn.runSequence(0, 0, []tcase{{body: body, kind: "replay/" + c.Kind}}, nil)
 	if err != nil {
 		fmt.Println("cannot start ffsigner:", err)
 		return
